@@ -58,6 +58,14 @@ CLAIMED["C10"] = dict(
     note="cKDTree replaced by a stub with the stated contract (snapshot + exact ball query); subclass instances carry symbolic state via Grid.__init__ / direct attributes; empty index selections outside",
     ref="DESIGN.md#c10")
 
+CLAIMED["C11"] = dict(
+    text="Range lemma on the real box computation of PeriodicGrid.get_localgrid (recompiled from current source with only `.astype(int)` and `range` stubbed so the box stays symbolic): for every integer "
+         "translation n, every point, centre and radius r >= 0 (all unbounded), an image inside the sphere implies ilc_min <= n <= ilc_max - for 6/14 concrete rational 2-D/3-D lattices (skewed, negative, "
+         "fewer vectors than dimensions) and for a 1-D grid with a fully symbolic lattice vector of either sign; wiring jobs run the real __init__ (wrap on/off) and get_localgrid with the k-d tree stub and "
+         "decide on every path that the result is exactly the set of (point, translation) pairs inside, each once, with parent weight/index and stored position p - n.A; no lattice = plain grid; empty spheres return empty grids.",
+    note="cKDTree and np.linalg.svd replaced by stated contracts (the svd contract is a ground check per lattice); Cauchy-Schwarz / monotonicity steps are discharged as separate lemma obligations and used as instances; fully symbolic 2-D/3-D lattices outside",
+    ref="DESIGN.md#c11")
+
 NOT_APPLICABLE = {
     "C02": "no symbolic input: validating 450 shipped data files against harmonics up to degree 325 is floating-point enumeration of concrete runs, outside solver-based checking and outside solver reach (the table/lookup half is decided in C12)",
 }
